@@ -453,7 +453,7 @@ def check_lib(run, info, n_valid, n_mutants, tag):
     return stats
 
 
-TVOC = LVOC + [kw("TYPE"), kw("END_TYPE"), kw("ARRAY"), kw("OF"), sym("["), sym("]"), sym(".."), sym(")"), ident("Ty1"), kw("SINT"), kw("REAL"), lit("3")]
+TVOC = LVOC + [kw("FUNCTION"), kw("END_FUNCTION"), sym(":"), kw("TYPE"), kw("END_TYPE"), kw("ARRAY"), kw("OF"), sym("["), sym("]"), sym(".."), sym(")"), ident("Ty1"), kw("SINT"), kw("REAL"), lit("3")]
 
 
 def impl_elements(r):
@@ -478,11 +478,14 @@ def check_lib2(run, info, n_valid, n_mutants, tag):
         valid.append((us, gen_prog.render(lx, gen_prog.Spelling(rng, respell=True, nonascii=rng.random() < 0.3))))
     mutants = []
     for i in range(n_mutants):
-        t = gen_st.T_(rng)
-        o, lx = t.block(0)
-        if rng.random() < 0.3:
-            us, ul = gen_st.lib_units(rng, depth=1)
-            lx = lx + ul
+        if rng.random() < 0.4:
+            o, lx = gen_st.lib2_elements(rng, depth=1)          # TYPE blocks, functions, function blocks and programs
+        else:
+            t = gen_st.T_(rng)
+            o, lx = t.block(0)
+            if rng.random() < 0.3:
+                us, ul = gen_st.lib_units(rng, depth=1)
+                lx = lx + ul
         lx = list(lx)
         for _ in range(rng.choice([1, 1, 2, 3])):
             if len(lx) <= 3:
